@@ -16,14 +16,40 @@ open Stam.QL Stam.QL.C09
 
 /-- the external functions as one record -/
 def ext (parseI : Str → Option Int) (parseF : Str → Bool) (isDt : Str → Bool) (regexOk : Str → Bool) : Ext :=
-  { parseI := parseI, parseF := parseF, isDt := isDt, regexOk := regexOk }
+  { parseI := parseI, parseF := parseF, isDt := isDt, regexOk := regexOk, parseNat := fun _ => none }
+
+/-- a text that begins with a letter of the first five keywords is handed to their parser -/
+theorem parseCnAll_old (parseI : Str → Option Int) (parseF : Str → Bool) (isDt : Str → Bool) (regexOk : Str → Bool)
+    (parseNat : Str → Option Nat) (c0 : Char) (r0 : Str) (hc : c0 = 'I' ∨ c0 = 'D' ∨ c0 = 'S' ∨ c0 = 'T') (hn : NoTrailWs (c0 :: r0)) :
+    parseCnAll parseI parseF isDt regexOk parseNat (c0 :: r0) = parseCn parseI parseF isDt regexOk (c0 :: r0) := by
+  have hws : isWs c0 = false := by rcases hc with rfl | rfl | rfl | rfl <;> decide
+  have ht : trim (c0 :: r0) = c0 :: r0 := trim_id c0 r0 hws hn
+  unfold parseCnAll
+  simp only [ht]
+  have hw : ∀ kw : Str, kw.head? ≠ some c0 → firstWord (c0 :: r0) ≠ kw := by
+    intro kw hk heq
+    have hs : isSplit c0 = false := by rcases hc with rfl | rfl | rfl | rfl <;> decide
+    rw [← heq] at hk
+    simp [firstWord, List.takeWhile, hs] at hk
+  have hat : (c0 :: r0).head? ≠ some '@' := by rcases hc with rfl | rfl | rfl | rfl <;> simp
+  rw [if_neg hat]
+  have hm : parseCnMore parseI parseF isDt parseNat (firstWord (c0 :: r0)) (c0 :: r0) = none := by
+    unfold parseCnMore
+    rw [if_neg (hw kANNOTATION (by rcases hc with rfl | rfl | rfl | rfl <;> decide)),
+      if_neg (hw kRESOURCE (by rcases hc with rfl | rfl | rfl | rfl <;> decide)),
+      if_neg (hw kRELATION (by rcases hc with rfl | rfl | rfl | rfl <;> decide)),
+      if_neg (hw kVALUE (by rcases hc with rfl | rfl | rfl | rfl <;> decide)),
+      if_neg (hw kKEY (by rcases hc with rfl | rfl | rfl | rfl <;> decide)),
+      if_neg (hw kLIMIT (by rcases hc with rfl | rfl | rfl | rfl <;> decide))]
+  rw [hm]
 
 /-! ### printed constraints: shape -/
 
 theorem last_semi (a : Str) : (a ++ [';']).getLast? = some ';' := by simp
 
 /-- every printed constraint of the modelled kinds begins with a letter of its keyword and ends with `;` -/
-theorem printCn_shape (showI : Int → Str) (c : Cn) (t : Str) (h : printCn showI c = some t) :
+theorem printCn_shape (showI : Int → Str) (parseI : Str → Option Int) (parseF : Str → Bool) (isDt : Str → Bool) (regexOk : Str → Bool)
+    (c : Cn) (t : Str) (hp : CnPrintable showI parseI parseF isDt regexOk c) (h : printCn showI c = some t) :
     ∃ c0, t.head? = some c0 ∧ (c0 = 'I' ∨ c0 = 'D' ∨ c0 = 'S' ∨ c0 = 'T') ∧ t.getLast? = some ';' := by
   cases c with
   | id s => simp only [printCn, Option.some.injEq] at h; subst h; exact ⟨'I', rfl, Or.inl rfl, last_semi _⟩
@@ -47,6 +73,14 @@ theorem printCn_shape (showI : Int → Str) (c : Cn) (t : Str) (h : printCn show
   | textVar v => simp [printCn] at h
   | dataVar v q => simp [printCn] at h
   | keyValueVar v o q => simp [printCn] at h
+  | annotationVar v q r off => simp [printCn] at h
+  | resourceVar v q off => simp [printCn] at h
+  | keyVar v q => simp [printCn] at h
+  | annotation s q r off => exact absurd hp (by simp [CnPrintable])
+  | resource s q off => exact absurd hp (by simp [CnPrintable])
+  | relation v op => exact absurd hp (by simp [CnPrintable])
+  | value o q => exact absurd hp (by simp [CnPrintable])
+  | limit b e => exact absurd hp (by simp [CnPrintable])
 
 theorem cons_of_head {α} (t : List α) (c : α) (h : t.head? = some c) : ∃ r, t = c :: r := by
   cases t with
@@ -72,6 +106,14 @@ theorem printCn_some (showI : Int → Str) (parseI : Str → Option Int) (parseF
   | textVar v => exact absurd hp (by simp [CnPrintable])
   | dataVar v q => exact absurd hp (by simp [CnPrintable])
   | keyValueVar v o q => exact absurd hp (by simp [CnPrintable])
+  | annotation s q r off => exact absurd hp (by simp [CnPrintable])
+  | annotationVar v q r off => exact absurd hp (by simp [CnPrintable])
+  | resource s q off => exact absurd hp (by simp [CnPrintable])
+  | resourceVar v q off => exact absurd hp (by simp [CnPrintable])
+  | relation v op => exact absurd hp (by simp [CnPrintable])
+  | value o q => exact absurd hp (by simp [CnPrintable])
+  | keyVar v q => exact absurd hp (by simp [CnPrintable])
+  | limit b e => exact absurd hp (by simp [CnPrintable])
 
 /-- a printable constraint is read back from its printed text whatever follows (`constraint_roundtrip`), and that text
 has the shape the constraint loop relies on -/
@@ -79,7 +121,7 @@ theorem cnGood_of_printable (showI : Int → Str) (parseI : Str → Option Int) 
     (c : Cn) (hp : CnPrintable showI parseI parseF isDt regexOk c) :
     ∃ t, CnGood (ext parseI parseF isDt regexOk) showI c t := by
   obtain ⟨t, ht⟩ := printCn_some showI parseI parseF isDt regexOk c hp
-  obtain ⟨c0, hhead, hc0, hlast⟩ := printCn_shape showI c t ht
+  obtain ⟨c0, hhead, hc0, hlast⟩ := printCn_shape showI parseI parseF isDt regexOk c t hp ht
   obtain ⟨r0, hr0⟩ := cons_of_head t c0 hhead
   refine ⟨t, ht, ?_, ⟨c0, r0, hr0, ?_, ?_⟩, ?_⟩
   · intro x hx
@@ -90,7 +132,19 @@ theorem cnGood_of_printable (showI : Int → Str) (parseI : Str → Option Int) 
   · rcases hc0 with rfl | rfl | rfl | rfl <;> decide
   · rcases hc0 with rfl | rfl | rfl | rfl <;> decide
   · intro rest hr
-    exact constraint_roundtrip showI parseI parseF isDt regexOk c t rest hp ht hr
+    have hrt := constraint_roundtrip showI parseI parseF isDt regexOk c t rest hp ht hr
+    have hnt : NoTrailWs (c0 :: (r0 ++ rest)) := by
+      by_cases he : rest = []
+      · subst he
+        rw [List.append_nil, ← hr0]
+        intro x hx; rw [hlast] at hx; simp only [Option.some.injEq] at hx; subst hx; decide
+      · have := noTrail_suffix (c0 :: r0) rest he hr
+        simpa using this
+    unfold Ext.cn ext
+    simp only []
+    rw [hr0, List.cons_append, parseCnAll_old parseI parseF isDt regexOk _ c0 (r0 ++ rest) hc0 hnt]
+    rw [hr0, List.cons_append] at hrt
+    exact hrt
 
 /-! ### printable queries -/
 
